@@ -39,7 +39,7 @@ UNITS.append(dict(name='mpf_get_ui', props=['C13', 'C11', 'C04', 'C15'], source=
     selftest=[('__gmpf_get_ui', r'if \(size >= exp\)', 'if (size > exp)')]))
 
 def strip_loop(ptr, siz, base, n0, fin):
-    return dict(scalars=[siz], havoc_targets=[ptr], havoc='{ long V_d = nondet_long (); __CPROVER_assume (0 <= V_d && V_d < %s); %s = %s + V_d; %s = %s - V_d; }' % (n0, ptr, base, siz, n0),
+    return dict(scalars=[siz], havoc_targets=[ptr], havoc='{ long V_d = nondet_long (); __CPROVER_assume (0 <= V_d && V_d < %s); %s = %s + V_d; %s = %s - V_d; }' % (n0, ptr, base, siz, n0), havoc_inv={'V_d': '(%s - %s)' % (ptr, base)},
                 inv='(%(p)s >= %(b)s && __CPROVER_same_object (%(p)s, %(b)s) && %(s)s == %(n)s - (%(p)s - %(b)s) && 1 <= %(s)s && %(s)s <= %(n)s && %(b)s[%(n)s - 1] != 0 && (gh < (%(p)s - %(b)s) ==> %(b)s[gh] == 0))'
                     % dict(p=ptr, s=siz, b=base, n=n0), dec=siz, after=fin)
 _cmpu = (dict(name='mpf_cmp', props=['C11', 'C13', 'C04', 'C15'], source='mpf/cmp.c', contracts=['mpn.h', 'mpz.h', 'c11.h', 'mpf.h'], enforce=['__gmpf_cmp'], replace=['__gmpn_cmp'],
@@ -73,7 +73,7 @@ UNITS.append(f1('__gmpf_cmp_ui', 'cmp_ui', 'mpir_ui v;', ', v', [(r'if \(uexp > 
                 dict(functions={'__gmpf_cmp_ui': dict(
                     inserts=[(r'usize--;\s*if \(ulimb > vval\)', None)] if False else [(r'up = u->_mp_d;', r'\g<0> long V_n = usize;')],
                     loops={0: dict(scalars=['usize'], havoc_targets=['up'],
-                                   havoc='{ long V_d = nondet_long (); __CPROVER_assume (0 <= V_d && V_d < V_n); up = u->_mp_d + V_d; usize = V_n - 1 - V_d; }',
+                                   havoc='{ long V_d = nondet_long (); __CPROVER_assume (0 <= V_d && V_d < V_n); up = u->_mp_d + V_d; usize = V_n - 1 - V_d; }', havoc_inv={'V_d': '(up - u->_mp_d)'},
                                    inv='(up >= u->_mp_d && __CPROVER_same_object (up, u->_mp_d) && usize == V_n - 1 - (up - u->_mp_d) && 0 <= usize && usize <= V_n - 1 && u->_mp_d[V_n - 1] != 0 && V_n == u->_mp_size && (gj < (up - u->_mp_d) ==> u->_mp_d[gj] == 0))',
                                    dec='usize + 1', after='g_hd = up - u->_mp_d;')})})))
 
@@ -150,7 +150,7 @@ __CPROVER_ensures (((V_SIZ (u) < 0) == (vval < 0) && V_SIZ (u) != 0 && vval != 0
                      functions={'__gmpf_cmp_si': dict(
                     inserts=[(r'up = u->_mp_d;', r'\g<0> long V_n = usize;')],
                     loops={0: dict(scalars=['usize'], havoc_targets=['up'],
-                                   havoc='{ long V_d = nondet_long (); __CPROVER_assume (0 <= V_d && V_d < V_n); up = u->_mp_d + V_d; usize = V_n - 1 - V_d; }',
+                                   havoc='{ long V_d = nondet_long (); __CPROVER_assume (0 <= V_d && V_d < V_n); up = u->_mp_d + V_d; usize = V_n - 1 - V_d; }', havoc_inv={'V_d': '(up - u->_mp_d)'},
                                    inv='(up >= u->_mp_d && __CPROVER_same_object (up, u->_mp_d) && usize == V_n - 1 - (up - u->_mp_d) && 0 <= usize && usize <= V_n - 1 && u->_mp_d[V_n - 1] != 0 && V_n == (u->_mp_size < 0 ? -(long) u->_mp_size : (long) u->_mp_size) && (gj < (up - u->_mp_d) ==> u->_mp_d[gj] == 0))',
                                    dec='usize + 1', after='g_hd = up - u->_mp_d;')})})))
 
@@ -166,7 +166,7 @@ _cf = (dict(name='mpf_ceilfloor', props=['C13', 'C04', 'C15'], source='mpf/ceilf
     enforce=['__gmpf_ceil_or_floor'], replace=['__gmpn_add_1'],
     functions={'__gmpf_ceil_or_floor': dict(
         inserts=[(r'if \(__gmpn_add_1 \(rp, up, asize, \(\(mp_limb_t\) 1L\)\)\)', r'g_cf_inc = 1; g_hd = p - u->_mp_d; g_cf_hv = *p; \g<0>')],
-        loops={0: dict(scalars=['asize', 'g_cf_hv', 'g_cf_inc', 'g_hd'], snap='long V_as = asize;', havoc_targets=['p'], havoc='{ long V_d = nondet_long (); __CPROVER_assume (0 <= V_d && V_d <= (up - u->_mp_d)); p = u->_mp_d + V_d; }',
+        loops={0: dict(scalars=['asize', 'g_cf_hv', 'g_cf_inc', 'g_hd'], snap='long V_as = asize;', havoc_targets=['p'], havoc='{ long V_d = nondet_long (); __CPROVER_assume (0 <= V_d && V_d <= (up - u->_mp_d)); p = u->_mp_d + V_d; }', havoc_inv={'V_d': '(p - u->_mp_d)'},
                        inv='(asize == V_as && p >= u->_mp_d && p <= up && __CPROVER_same_object (p, u->_mp_d) && __CPROVER_same_object (up, u->_mp_d) && g_cf_inc == 0 && ((0 <= gj && gj < (p - u->_mp_d)) ==> u->_mp_d[gj] == 0))',
                        dec='(up - p)'),
                1: copy_loop('gk', 'incr')})},
